@@ -1,5 +1,8 @@
 #!/venv/bin/python
 """C12 — the offline arena plan is self-consistent and reported memory is sufficient.
+Scheduler-bookkeeping stage (harness/sched_lib.py, design.d/SchedMem.md): the Lean model of the memory bookkeeping of scheduler.py /
+cascade_builder.py (Model/SchedMem.lean, theorems in Props/C12Sched.lean) must reproduce every captured call of the real Scheduler /
+CascadeBuilder, and the Lean Spec (Spec/SchedMem.lean) judges the real estimates, snapshots, buffers and fast-storage decisions.
 Every output model is read with the plain flatbuffer walker; the Lean checker Arena.check judges the
 OfflineMemoryAllocation plan (liveness under the operator order, overlap, alignment, scratch tensor);
 the reported figures (summary CSV, console) are compared with the extent the plan requires in Lean.
@@ -18,12 +21,35 @@ import inplace_lib
 import liverange_lib
 import pipe_common
 import pipeline
+import sched_lib
 from common import Check, main_wrapper
 
 
-def arena_line(model, align):
+PLAN = "OfflineMemoryAllocation"
+# recorded findings of the unchanged compiler on an already compiled input (second generation); see design.d/C12 section in DESIGN notes
+KEY_REPORT_SCRATCH = "recompiled-model:reported-arena-omits-scratch-tensor-of-existing-ethos-u-operators"
+KEY_REPORT_OTHER_OPTS = "recompiled-model:reported-arena-is-the-fresh-allocation-but-the-input-plan-is-kept:other-options"
+
+
+def report_key(o, model, scratch, reported):
+    """stable key of the recorded finding that explains a too small reported figure, or None (classification only)"""
+    if o.get("gen_count", 1) <= 1:
+        return None
+    if scratch >= 0 and reported < fbwalk.tensor_bytes(model["subgraphs"][0]["tensors"][scratch]):
+        return KEY_REPORT_SCRATCH            # the figure does not even cover the arena of the passed-through Ethos-U operators
+    if any(g != o["gen_opts"][0] for g in o["gen_opts"][1:]):
+        return KEY_REPORT_OTHER_OPTS         # a later generation allocated with other options; the file keeps the first plan
+    return None
+
+
+def plan_buffers(model):
+    """buffer index of every metadata entry that is an arena plan, in file order"""
+    return [b for name, b in model["metadata_list"] if name == PLAN]
+
+
+def arena_line(model, align, plan_buffer=None):
     sg = model["subgraphs"][0]
-    meta = model["buffers"][model["metadata"]["OfflineMemoryAllocation"]]
+    meta = model["buffers"][model["metadata"][PLAN] if plan_buffer is None else plan_buffer]
     vals = struct.unpack("<%di" % (len(meta) // 4), meta)
     version, nsg, ntens = vals[0], vals[1], vals[2]
     offs = vals[3:3 + len(sg["tensors"])]
@@ -54,25 +80,43 @@ def arena_line(model, align):
 
 def main():
     ck = Check("C12", "translation_validation")
-    ck.lean_stage(["VelaVerif.Props.C12", "VelaVerif.Props.C12LiveRange", "VelaVerif.Props.C12InPlace"])
+    ck.lean_stage(["VelaVerif.Props.C12", "VelaVerif.Props.C12LiveRange", "VelaVerif.Props.C12InPlace", "VelaVerif.Props.C12Sched"])
     n = 6000 if ck.thorough else 320
+    # gen2:<p> = the OUTPUT of profile <p> compiled again (same or other options), sometimes a third time (harness/regen.py):
+    # the final file must still carry ONE plan, and that plan must still cover what the passed-through Ethos-U operators touch
     profiles = ["cpu", "mixed", "pattern", "cascade", "weights", "pattern", "cpu", "lut", "pattern", "elementwise"]
+    gen2_profiles = ["gen2:cpu", "gen2:pattern", "gen2:mixed"]       # run in addition (n // 4 compilations), the population above is unchanged
     pipeline.load_vela()
     liverange_lib.install()      # harness-side wrapping of live_range.extract_*, before the workers are forked
     inplace_lib.install()        # ... of extract_npu_subgraphs and _get_ifm_to_fuse (design.d/InPlace.md)
     inplace_lib.install_profile()
+    sched_lib.install()          # ... of the Scheduler / CascadeBuilder memory bookkeeping (design.d/SchedMem.md)
+    if sched_lib.replay(ck):
+        return
     ip_stub_stats = inplace_lib.stage(ck, [], prefix="inplace_stub_", compiled=False)     # function level first
-    outs = pipe_common.run_corpus(ck, n, profiles=profiles, want={"out_model": True, "extra": inplace_lib.extra_with_liverange},
+    outs = pipe_common.run_corpus(ck, n, profiles=profiles, want={"out_model": True, "extra": sched_lib.extra_c12},
                                   corpus_first=False, sweep=True)
     if ck.replay_arg is None:
         # boundary shapes of the in-place decision chain (harness/inplace_nets.py): every variant once (4x thorough)
         import inplace_nets
 
         outs += pipe_common.run_corpus(ck, inplace_nets.n_variants() * (4 if ck.thorough else 1), profiles=["inplace"],
-                                       want={"out_model": True, "extra": inplace_lib.extra_with_liverange},
+                                       want={"out_model": True, "extra": sched_lib.extra_c12},
                                        corpus_first=False, sweep=False)
+        # second generation (design.d/History.md): in addition, the population above is unchanged
+        outs += pipe_common.run_corpus(ck, n // 4, profiles=gen2_profiles,
+                                       want={"out_model": True, "extra": inplace_lib.extra_with_liverange}, corpus_first=False)
+        # second-generation compilations kept because they exposed something: (profile, seed, index)
+        #   gen2:cpu/0/7  CAST,QUANTIZE,CAST,QUANTIZE on 1x1x19x1 uint8, LinearAlloc then Greedy on another accelerator: the reported
+        #                 arena (160) is the fresh allocation, the kept plan needs 275 (finding `...:other-options`).  After the merge
+        #                 with the newer generators the entry hist kept for this finding (gen2:cpu/0/253) is another network, one
+        #                 CONV_2D on the NPU, and shows the scratch-tensor finding; it stays as a second reproducer of that one
+        #   gen2:pattern/0/256  fc1_after_conv: the report of the later generations leaves out the existing scratch tensor (2064 < 8202)
+        for prof, sd, ix in (("gen2:cpu", 0, 7), ("gen2:cpu", 0, 253), ("gen2:pattern", 0, 256)):
+            outs.append(pipe_common._worker((sd, ix, prof, {"out_model": True, "extra": inplace_lib.extra_with_liverange})))
     ip_known = inplace_lib.classify(ck, outs)
     lines, owners, extra = [], [], []
+    plan_reqs, plan_owner = [], []
     for o in outs:
         if "harness_exception" in o:
             raise common.InfraError("pipeline worker failed:\n" + o["harness_exception"])
@@ -87,16 +131,37 @@ def main():
             continue
         opts = o["opts"]
         align = int(opts[opts.index("--cpu-tensor-alignment") + 1]) if "--cpu-tensor-alignment" in opts else 16
-        line, hdr, scratch, fast = arena_line(model, align)
-        lines.append(line)
-        owners.append(o)
-        extra.append((model, hdr, scratch, fast))
+        plans = plan_buffers(model)
+        if o.get("gen_count", 1) > 1:
+            ck.count("second_generation_outputs")
+            ck.count("generations_%d" % o["gen_count"])
+            ck.count("second_generation_other_options" if any(g != o["gen_opts"][0] for g in o["gen_opts"][1:]) else
+                     "second_generation_same_options")
+        plan_reqs.append(f"arenaplans {len(plans)}")
+        plan_owner.append((o, len(plans)))
+        # every plan the file carries is judged (a runtime may pick any of them)
+        for pi, pb in enumerate(plans):
+            line, hdr, scratch, fast = arena_line(model, align, pb)
+            lines.append(line)
+            owners.append(o)
+            extra.append((model, hdr, scratch, fast, pi, len(plans)))
     answers = ck.model(lines)
+    for (o, nplans), a in zip(plan_owner, ck.model(plan_reqs, parallel=False) if plan_reqs else []):
+        if a != "1":
+            ck.count("files_without_exactly_one_plan")
+            if ck.counters["files_without_exactly_one_plan"] > 4:
+                continue            # keep room in the report for what the surplus plans say
+            ck.violation(f"the output model carries {nplans} OfflineMemoryAllocation entries (exactly one arena plan expected) "
+                         f"(network {o['idx']} {o['profile']}, options per generation {o.get('gen_opts', [o['opts']])})",
+                         {"profile": o["profile"], "seed": o["seed"], "index": o["idx"], "opts": o["opts"], "gen_opts": o.get("gen_opts"),
+                          "network": o["desc"], "plans": nplans,
+                          "how_to_replay": "pipe_common._worker((seed, index, profile, {'out_model': True})); a profile gen2:<p> compiles the "
+                                           "output of profile <p> again (harness/regen.py)"})
     rep_reqs, rep_owner = [], []
     nontrivial = set()
     programs = 0
     rejected = 0
-    for o, ans, line, (model, hdr, scratch, fast) in zip(owners, answers, lines, extra):
+    for o, ans, line, (model, hdr, scratch, fast, plan_i, plan_n) in zip(owners, answers, lines, extra):
         programs += 1
         m = re.match(r"conflicts=(\d+) (.*?) \| misaligned=(\d+) (.*?) \| scratch=(\d+) (.*?) \| required=(\d+)", ans)
         if not m:
@@ -112,6 +177,9 @@ def main():
         ck.count("models_with_cpu_ops" if ncpu else "models_npu_only")
         rp = {"profile": o["profile"], "seed": o["seed"], "index": o["idx"], "opts": o["opts"], "network": o["desc"],
               "arena_request": line[:3000], "verdict": ans}
+        if o.get("gen_count", 1) > 1:
+            rp.update(gen_opts=o["gen_opts"], generation=o["gen_count"], plan=f"{plan_i + 1} of {plan_n}",
+                      history="the judged file is the output of compiling a Vela output again (profile gen2:<p>, harness/regen.py)")
         # metadata layout: [version, n_subgraphs, n_tensors, offsets...]
         if hdr[0] != 0 or hdr[2] != sum(len(s["tensors"]) for s in model["subgraphs"]) or hdr[3] != hdr[2]:
             ck.violation(f"OfflineMemoryAllocation header/length inconsistent: {hdr}", rp)
@@ -133,7 +201,8 @@ def main():
             ck.violation(f"arena offsets not aligned to {line.split('align=')[1].split(' ')[0]}: tensors {m.group(4)}", rp)
         if nscr:
             rejected += 1
-            ck.violation(f"scratch tensor does not span the Ethos-U operands: {m.group(6)}", rp)
+            gen = "" if o.get("gen_count", 1) == 1 else f" [generation {o['gen_count']} output, plan {plan_i + 1} of {plan_n}, {o['profile']} {o['idx']}]"
+            ck.violation(f"scratch tensor does not span the Ethos-U operands: {m.group(6)}{gen}", rp)
         # reported figures
         if o.get("csv"):
             rows = list(csv.DictReader(io.StringIO(o["csv"])))
@@ -145,22 +214,34 @@ def main():
                 if col and row.get(col) not in (None, ""):
                     reported = int(round(float(row[col]) * 1024))
                     rep_reqs.append(f"reported {required} {reported}")
-                    rep_owner.append((o, "csv " + col, required, reported, rp))
+                    rep_owner.append((o, "csv " + col, required, reported, dict(rp, finding_key=report_key(o, model, scratch, reported))))
                     ck.count("arena_area_" + area)
     rep_ans = ck.model(rep_reqs, parallel=False) if rep_reqs else []
     for (o, what, required, reported, rp), a in zip(rep_owner, rep_ans):
         if a != "1":
             rejected += 1
+            gen = "" if o.get("gen_count", 1) == 1 else f" [generation {o['gen_count']}: a Vela output compiled again, options per generation {o['gen_opts']}]"
             ck.violation(f"reported {what} = {reported} bytes is below the arena extent the plan requires ({required}) "
-                         f"(network {o['idx']} {o['profile']} {o['opts']})", dict(rp, reported=reported, required=required))
+                         f"(network {o['idx']} {o['profile']} {o['opts']}){gen}", dict(rp, reported=reported, required=required),
+                         key=rp.get("finding_key"))
     for o, ans in list(zip(owners, answers))[:3]:
         ck.sample({"network": o["desc"], "opts": o["opts"], "verdict": ans})
     lr_stats = liverange_lib.stage(ck, outs, known=ip_known)
     ip_stats = inplace_lib.stage(ck, outs, stub=False)
+    # scheduler memory bookkeeping: the compilations above + a cascade-heavy corpus of its own (small SRAM targets, Dedicated_Sram)
+    sched_outs = sched_lib.corpus(ck, 1200 if ck.thorough else 100) if ck.replay_arg is None else []
+    if ck.replay_arg is None:
+        # generated live-range sets through the real use_fast_storage_for_feature_maps / FastStorageComponentAllocator
+        sched_outs += sched_lib.stub_fast(ck.rng, 3000 if ck.thorough else 300)
+        # generated operator chains through the real CascadeBuilder.build_cascades, generated ranges through get_temporal_memory_usage
+        sched_outs += sched_lib.stub_builder(ck.rng, 5000 if ck.thorough else 500)
+        sched_outs += sched_lib.stub_tusage(ck.rng, 2000 if ck.thorough else 200)
+    sc_stats = sched_lib.stage(ck, outs + sched_outs)
     ck.finish({
         **lr_stats,
         **ip_stub_stats,
         **ip_stats,
+        **sc_stats,
         "programs": programs,
         "disagreements_checked": rejected,
         "evaluations": len(outs),
@@ -168,7 +249,11 @@ def main():
         "reported_figures_checked": len(rep_reqs),
         "rule": "program = output model of one compiled (network, configuration); non-trivial when it plans >= 3 arena tensors; "
                 "distinct by (profile, index, options). liverange_instances = calls of extract_live_ranges_from_schedule / "
-                "_from_cascaded_passes on a fresh graph, distinct by abstract schedule, non-trivial when >= 3 ranges result",
+                "_from_cascaded_passes on a fresh graph, distinct by abstract schedule, non-trivial when >= 3 ranges result. "
+                "sched_model_requests = calls of the modelled scheduler functions (build_cascades, optimize_sub_schedule, "
+                "get_temporal_memory_usage, use_fast_storage_for_feature_maps, propose_operator_buffering, ...) on the compilations "
+                "of this check and of the cascade-heavy corpus harness/sched_nets.py; sched_spec_requests = Lean Spec verdicts on "
+                "the real values of those calls",
         "exhaustive": False,
     }, assumptions=["liveness is taken from the operator order of the output graph; an input dying at and an output born at the same "
                     "Ethos-U operator may share bytes (ordering inside the stream is C03's subject)",
